@@ -278,6 +278,9 @@ def coverage(chk, lp, q, w):
                         continue
                     if not prs:
                         continue            # the search leaves the bisection here (a populated index was found)
+                    if any(not (0 <= a <= 4 * B and 0 <= b <= 4 * B) for a, b in prs):
+                        bad = bad or "after probing %d in (%d, %d) a pushed pair leaves the index range: %s (an unsigned subtraction wrapped)" % (mid, s0, e0, prs)
+                        continue
                     parts = [members(a, b) for a, b in prs]
                     union = set().union(*parts) | {mid}
                     if union != S or sum(len(x) for x in parts) + 1 != len(S):
@@ -318,6 +321,8 @@ def _seed_bad(seed, members):
             a, b = (sym.rebuild(x, {n_t: C(n, "usize")}) for x in r[1])
             if not (sym.is_c(a) and sym.is_c(b)):
                 return "the initial queue is not arithmetic in the element count"
+            if not (0 <= a[1] <= 64 and 0 <= b[1] <= 64):
+                return "for %d elements the initial queue holds the pair (%d, %d)" % (n, a[1], b[1])
             parts.append(members(a[1], b[1]))
         if set().union(*parts) != set(range(n)) or sum(len(x) for x in parts) != n:
             return "for %d elements the initial queue covers %s" % (n, sorted(set().union(*parts)))
